@@ -160,7 +160,7 @@ type Worker struct {
 }
 
 func (w *Worker) proc(kind string) *smt.Proc {
-	if p, ok := w.procs[kind]; ok && p != nil {
+	if p, ok := w.procs[kind]; ok && p != nil && !p.Dead() {
 		return p
 	}
 	p, err := smt.StartProc(kind, w.cfg.TimeoutMs, w.stats)
@@ -385,12 +385,13 @@ func (p *Program) runPath(fn *ssa.Function, cfg *Config, w *Worker, prefix []Dec
 	x = &Exec{P: p, B: b, Cfg: cfg, prefix: prefix, W: w,
 		gl: map[*ssa.Global]*Object{}, initFr: map[*ssa.Package]*Frame{},
 		Reached: map[string]bool{}, Funcs: map[string]int{}, Summ: map[string]int{}, Assumes: map[string]int{},
-		ForkSites: map[string]int{}, SlowSites: map[string]float64{}, errIDs: map[string]int{}, lenAxiom: map[int]bool{}, pow10Of: map[int]*smt.Term{}, constMemo: map[int]*smt.Term{}, localMerge: map[string]bool{}}
+		ForkSites: map[string]int{}, SlowSites: map[string]float64{}, errIDs: map[string]int{}, lenAxiom: map[int]bool{}, pow10Of: map[int]*smt.Term{}, constMemo: map[int]*smt.Term{}, localMerge: map[string]bool{}, linked: map[int]bool{}}
 	if cfg.Debug && cfg.Transcript != "" {
 		f, _ := os.Create(cfg.Transcript)
 		proc.Log = f
 	}
 	x.S = smt.NewSession(proc, b)
+	x.started = time.Now()
 	x.Env = newEnv(x)
 	defer func() {
 		if r := recover(); r != nil {
